@@ -10,14 +10,14 @@ def repo_commits():
     return [l.split()[0] for l in out.splitlines() if " verif hooks" in l or l.split(" ", 1)[1].startswith("verif hooks")]
 
 CHECKS = {
- "C01": dict(cat="fault_enumeration", engine="crash", tech="crash-image enumeration over recorded disk traces (every prefix cut + sampled lossy and depth-2 cuts), recovered tree matched against reference prefixes",
-   text="Every prefix cut of each recorded disk trace, sampled lossy (un-barriered writes lost/reordered) cuts and cuts of the recovery run itself are recovered by the real MakeNfs and must equal the reference state after an operation prefix in [acknowledged-stable, issued]; then fsck and a continuation workload. Held on the traces explored, not a proof.",
+ "C01": dict(cat="fault_enumeration", engine="crash", tech="crash-image enumeration over recorded disk traces of sequential and concurrent workloads (every prefix cut + sampled lossy and depth-2 cuts), recovered tree matched against reference prefixes",
+   text="Every prefix cut of each recorded disk trace, sampled lossy (un-barriered writes lost/reordered) cuts and cuts of the recovery run itself are recovered by the real MakeNfs and must equal the reference state after an operation prefix in [acknowledged-stable, issued]; then fsck and a continuation workload. Concurrent traces (2-4 clients confined to their own directories, journal-rejected requests next to them): every client's subtree must be a prefix state of its own sequence within [durable, issued] and the combination must respect real time across clients. Held on the traces explored, not a proof.",
    note="disk model: atomic 4 KiB writes, device-wide barriers (what GoJournal assumes); traces are samples; reference model conventions of DESIGN §2.2", ref="§4 C01"),
  "C02": dict(cat="exploration", engine="seq", tech="differential monitor against an executable reference model over seeded operation sequences (direct and RPC/XDR adapters)",
    text="Seeded state-aware sequences over all 22 procedures are executed on the real server and on a reference model in lock-step; every reply and periodic whole-tree dumps (also after restarts) must agree.",
    note="reference model conventions of DESIGN §2.2; inputs are sampled", ref="§4 C02"),
- "C03": dict(cat="exploration", engine="conc", tech="recorded concurrent histories checked for linearizability with porcupine against the reference model, schedules widened by seeded yields at lock/commit hooks",
-   text="Many short conflicting histories (3-4 clients) recorded at the client boundary, checked by porcupine against the sequential reference; final state included as a read.",
+ "C03": dict(cat="exploration", engine="conc", tech="recorded concurrent histories checked for linearizability with porcupine against the reference model, schedules widened by seeded yields at lock/commit hooks and by directed parking of one request at a transaction abort or inside a disk read",
+   text="Many short conflicting histories (3-4 clients) recorded at the client boundary, checked by porcupine against the sequential reference; final state included as a read. Directed histories park one request at its n-th abort or inside its n-th disk read (holding its locks and cache slots) while other requests and a sweep over more inodes than the inode cache holds run against it.",
    note="short histories (<= 24 ops); schedules are whatever the Go scheduler plus injected yields produce", ref="§4 C03"),
  "C04": dict(cat="exploration", engine="seq+crash+conc", tech="structural invariant monitor (fsck with the repository's own decoders) at quiescent points and on recovered crash images",
    text="fsck of the logical disk after every operation of seeded sequences, after concurrent histories and on crash images.",
@@ -27,18 +27,18 @@ CHECKS = {
    note="in-memory allocator bitmaps are read with reflect/unsafe at quiescent points", ref="§4 C05"),
  "C06": dict(cat="exploration", engine="lock", tech="lock-order / wait-for trace monitor over hooked inode-lock acquisitions (census + concurrent stress), bounded-retry counter",
    text="Every inode-lock request is observed with the locks already held: definite wait-for cycles and self-waits are detected before blocking, the accumulated lock-order graph must be acyclic, and retries are bounded in logical steps.",
-   note="assumes no gate locks (true today); unbounded liveness is replaced by the logical criteria of DESIGN §2.6", ref="§4 C06"),
+   note="only inode locks are hooked; the one other lock that requests wait on (Nfs.renameMu, serializing cross-directory renames) is covered by the progress-based wedge detector, not by the wait-for graph; unbounded liveness is replaced by the logical criteria of DESIGN §2.6", ref="§4 C06"),
  "C07": dict(cat="fault_enumeration", engine="crash", tech="crash-image enumeration with stability-aware lower bounds + reply monitor for committed level and write verifier",
    text="Write-heavy traces mixing UNSTABLE/DATA_SYNC/FILE_SYNC, COMMIT and metadata operations are cut at every point; the recovered state must be a prefix containing everything acknowledged stable; committed level and verifier checked on every reply.",
    note="same disk model as C01", ref="§4 C07"),
- "C08": dict(cat="exploration", engine="seq", tech="history monitor binding every issued handle to one object; dead-handle probes of every procedure and handle position",
-   text="Inode-reuse-heavy sequences with restarts; handle/object bijection; dead and reused-number handles must be answered NFS3ERR_STALE everywhere.",
+ "C08": dict(cat="exploration", engine="seq", tech="history monitor binding every issued handle to one object; dead-handle probes of every procedure and handle position; sweep over the whole inode table",
+   text="Inode-reuse-heavy sequences with restarts; handle/object bijection; dead and reused-number handles must be answered NFS3ERR_STALE everywhere. Inode-table sweep: every inode number up to the last is handed out, used through its handle, freed and handed out again after a restart.",
    note="inputs are sampled", ref="§4 C08"),
  "C09": dict(cat="exploration", engine="seq", tech="before/after state monitor around every failing RPC on nearly-full disks (tree, free counts, fsck, cache coherence)",
    text="On nearly full disks every failing RPC is followed by a comparison of free counts, the whole tree against the reference (where it never happened), fsck and cache/disk coherence.",
    note="counts, not numbers, are compared (next-fit pointers may move)", ref="§4 C09"),
  "C10": dict(cat="exploration", engine="seq", tech="differential monitor live server vs. server recovered from its image vs. clean restart, plus cache/disk coherence invariant",
-   text="At flushed quiescent points the live server is compared (handles, attributes, times, listing order, bytes) with a twin recovered from a copy of the disk and with itself after a clean restart; cached inodes, name caches and allocators are compared with the logical disk.",
+   text="At flushed quiescent points the live server is compared (handles, attributes, times, listing order, bytes) with a twin recovered from a copy of the disk and with itself after a clean restart; cached inodes, name caches and allocators are compared with the logical disk. After concurrent histories: flush, restart, the tree and all handles must be unchanged.",
    note="quiescent points only", ref="§4 C10"),
  "C11": dict(cat="exploration", engine="hostile", tech="crash/hang monitor on a child process under structured hostile argument generation and byte-level mutation of framed RPC messages",
    text="Hostile argument values for all NFS and MOUNT procedures of nfs.Nfs and simple.Nfs in several file-system states; the child must not die, must reply, and must pass the canary afterwards.",
